@@ -96,14 +96,30 @@ func (s *Endpoint) URI() (string, error) {
 	if s.rawObj != nil {
 		switch o := s.rawObj.(type) {
 		case []string:
+			if len(o) == 0 {
+				return "", fmt.Errorf("endpoint URI not found")
+			}
+
 			return o[0], nil
 		case [][]byte:
+			if len(o) == 0 {
+				return "", fmt.Errorf("endpoint URI not found")
+			}
+
 			return string(o[0]), nil
 		case []interface{}:
+			if len(o) == 0 {
+				return "", fmt.Errorf("endpoint URI not found")
+			}
+
 			return fmt.Sprintf("%s", o[0]), nil
 		case map[string]interface{}:
 			switch uri := o["origins"].(type) {
 			case []interface{}:
+				if len(uri) == 0 {
+					return "", fmt.Errorf("endpoint URI not found")
+				}
+
 				return fmt.Sprintf("%s", uri[0]), nil
 			default:
 				return "", fmt.Errorf("unrecognized DIDCore origins object %s", o)
